@@ -2,7 +2,7 @@
 //! same data and parameters, flat observations compared with those of the built-in backend.
 
 use crate::bk::{build, view, vview, Bk, NAMES};
-use crate::model::{close, M};
+use crate::model::{abbr, close, M};
 use mc_core::{self as mc, json, PanicInfo};
 use smartcore::algorithm::neighbour::KNNAlgorithmName;
 use smartcore::cluster::dbscan::{DBSCANParameters, DBSCAN};
@@ -97,6 +97,9 @@ pub struct Data {
     pub x: M,
     pub y: Vec<f64>,
     pub q: M,
+    /// how `x` was generated, for data too long to print in every violation line (empty: print `x`);
+    /// the replay file always has the full matrices
+    pub label: String,
 }
 
 fn knn_cfg(cfg: usize) -> (usize, KNNAlgorithmName, KNNWeightFunction) {
@@ -384,7 +387,7 @@ pub enum EOut {
 impl EOut {
     fn show(&self) -> String {
         match self {
-            EOut::Vals(v) => format!("{:?}", v),
+            EOut::Vals(v) => abbr(v, 40, 8),
             EOut::Failed(m) => format!("Err({})", m),
             EOut::Panic(p) => p.brief(),
             EOut::Hang => "no result within the probe deadline (does not terminate)".into(),
@@ -488,7 +491,7 @@ fn cpu_ms(pid: u32) -> Option<u64> {
 fn data_of(v: &serde_json::Value) -> (usize, usize, usize, usize, Data) {
     let g = |k: &str| v[k].as_u64().unwrap_or(0) as usize;
     let fv = |k: &str| -> Vec<f64> { v[k].as_array().map(|a| a.iter().map(|x| x.as_f64().unwrap_or(f64::NAN)).collect()).unwrap_or_default() };
-    (g("ix"), g("e"), g("cfg"), g("lx"), Data { x: M { r: g("xr"), c: g("xc"), v: fv("x") }, y: fv("y"), q: M { r: g("qr"), c: g("qc"), v: fv("q") } })
+    (g("ix"), g("e"), g("cfg"), g("lx"), Data { x: M { r: g("xr"), c: g("xc"), v: fv("x") }, y: fv("y"), q: M { r: g("qr"), c: g("qc"), v: fv("q") }, label: String::new() })
 }
 
 /// Child side (`c20 --c20-probe`): one request per input line, one answer line per request.
@@ -686,7 +689,7 @@ pub fn run_case(job: &str, e: usize, cfg: usize, d: &Data, lx: usize) {
                         let (i, k) = (pair / d.q.r, pair % d.q.r);
                         mc::violation(
                             format!("{}.{}:long-rows-differ-from-definition", NAMES[ix], WHAT[f]),
-                            format!("{} of data row {} {:?} and query row {} {:?} ({} columns): {} gives {:?}; textbook value {:?}", WHAT[f], i, d.x.row(i.min(d.x.r - 1)), k, d.q.row(k), d.x.c, NAMES[ix], got[..].get(p), want[..].get(p)),
+                            format!("{} of data row {} {:?} and query row {} {:?} ({} columns): {} gives {:?}; textbook value {:?}", WHAT[f], i, d.x.row(i.min(d.x.r - 1)), k, d.q.row(k.min(d.q.r - 1)), d.x.c, NAMES[ix], got[..].get(p), want[..].get(p)),
                         );
                     }
                 }
@@ -730,10 +733,22 @@ pub fn run_case(job: &str, e: usize, cfg: usize, d: &Data, lx: usize) {
         if lx > 0 && !HANG_PRONE.contains(&e) && same(&run_ix(0, e, cfg, d, 0), &run_ix(ix, e, cfg, d, 0), tol, &mask) {
             class.push_str("-nonstandard-layout");
         }
+        // first observation that differs (long observation vectors are abbreviated in the line)
+        let first_diff = match (&outs[0], &outs[ix]) {
+            (EOut::Vals(a), EOut::Vals(b)) if a.len() == b.len() => (0..a.len()).find(|p| !mask.get(*p).copied().unwrap_or(false) && !close_tol(a[*p], b[*p], tol)).map(|p| format!(" [first difference: observation {} of {}: {:?} vs dense {:?}]", p, a.len(), b[p], a[p])).unwrap_or_default(),
+            _ => String::new(),
+        };
         mc::violation(
             format!("{}.{}:{}", NAMES[ix], name, class),
-            format!("{} (configuration {}) on x={} y={:?}{}: {} gives {}; dense gives {}", name, cfg, d.x.show(), d.y, if lx > 0 { " (x in transposed layout)" } else { "" }, NAMES[ix], outs[ix].show(), outs[0].show()),
+            format!("{} (configuration {}) on x={} y={:?}{}: {} gives {}; dense gives {}{}", name, cfg, if d.label.is_empty() { d.x.show() } else { d.label.clone() }, d.y, if lx > 0 { " (x in transposed layout)" } else { "" }, NAMES[ix], outs[ix].show(), outs[0].show(), first_diff),
         );
     }
-    mc::describe(|| json!({"estimator": name, "configuration": cfg, "x": d.x.rows(), "y": d.y, "queries": d.q.rows(), "x_layout": crate::bk::LAYOUTS[lx], "dense": outs[0].show(), "ndarray": outs[1].show(), "nalgebra": outs[2].show()}));
+    let compact = |m: &M| -> serde_json::Value {
+        if m.v.len() <= 64 {
+            json!(m.rows())
+        } else {
+            json!(m.rows().iter().map(|r| format!("{:?}", r)).collect::<Vec<_>>())
+        }
+    };
+    mc::describe(|| json!({"estimator": name, "configuration": cfg, "x": compact(&d.x), "x_generated_as": d.label, "y": d.y, "queries": compact(&d.q), "x_layout": crate::bk::LAYOUTS[lx], "dense": outs[0].show(), "ndarray": outs[1].show(), "nalgebra": outs[2].show()}));
 }
